@@ -179,7 +179,8 @@ def build(case, files):
     for dname in dirs:
         if not any(p.startswith(dname.split('/')[0] + '/') for p in texts) and dname not in sym:
             texts[dname.split('/')[0] + '/.keep'] = ''
-    c = impl.compile_case(P.make_isa(case['cfg']), texts, include_dirs=dirs)
+    # the main file named with its full path, or bare from its own directory (which is searched for includes either way)
+    c = impl.compile_case(P.make_isa(case['cfg']), texts, include_dirs=dirs, bare_main=r.random() < 0.35)
     if sym:
         c['symlinks'] = sym
     return c
